@@ -189,6 +189,9 @@ FEATURES = {
     "const-attr": 'ca = "abc".upper\ncb = (1).real\ncc = [1].copy\ndef cf(p="x".join, q=(1.5).hex): ...\n'
                   # the trailing names are also members of the module: they must not start resolving to those after a reload
                   'upper = real = copy = tail = 0\ncd = (ca or cb).tail\nce = ca().tail.upper\ncg: (ca[0].real) = [x.copy for x in cc]\n',
+    # calls with keyword arguments whose callee resolves to something else than its spelling (keywords resolve through the called function)
+    "kwcall": ("import functools as ft\ndef make(size=1, **kw):\n    return lambda f: f\nkwv = make(size=2, other=make(size=3))\n@make(size=4)\ndef decorated(p=make(size=5)): ...\n"
+               "class KC:\n    v: make(size=7) = ft.partial(make, size=8)\n    def m(self, q=make(size=6)) -> make(size=9): ...\n"),
     "inherit": "import abc\nclass A(abc.ABC):\n    @abc.abstractmethod\n    def am(self): ...\n    x = 1\nclass B(A):\n    y = 2\n",
 }
 EXECUTABLE = list(FEATURES)
